@@ -146,6 +146,31 @@ def run(tier, seed):
       if got != want:
         fails.append(dict(inputs=dict(filters=repr(fs)), observed=f'split gives {got}, first-match partition is {want}', violated='first-match-partition'))
         break
+      # variablelib.split_flat_state: the same partition without a remainder group - a leaf matched by no filter is an error
+      for order in (list(probes), list(reversed(probes))):
+        want2 = [[] for _ in fs]
+        unmatched = False
+        for path, x in order:
+          for i, f in enumerate(fs):
+            if _ref(nnx, f, path, x):
+              want2[i].append(path)
+              break
+          else:
+            unmatched = True
+        try:
+          g2 = nnx.variablelib.split_flat_state(order, tuple(_build(nnx, f) for f in fs))
+          got2 = [[p for p, _ in g] for g in g2]
+          if unmatched:
+            fails.append(dict(inputs=dict(filters=repr(fs), fn='variablelib.split_flat_state'), observed='a leaf matched by no filter did not raise', violated='first-match-partition'))
+          elif got2 != want2:
+            fails.append(dict(inputs=dict(filters=repr(fs), fn='variablelib.split_flat_state', leaf_order=[p for p, _ in order]), observed=f'split_flat_state gives {got2}, first-match partition is {want2}', violated='first-match-partition'))
+        except ValueError:
+          if not unmatched:
+            fails.append(dict(inputs=dict(filters=repr(fs), fn='variablelib.split_flat_state'), observed='raised ValueError although every leaf is matched by some filter', violated='first-match-partition'))
+        if fails:
+          break
+      if fails:
+        break
   return dict(name=NAME, cases=cases, distinct=len(exprs), bound=f'{len(exprs)} filter expressions (nesting depth <= {1 if tier == "quick" else 2}) x 4 probes; splits by 1-5 filters incl. several trailing catch-alls',
               failures=fails[:2], error=None)
 
